@@ -176,7 +176,7 @@ class FSA:
         return self._in_dict
 
     def has_edge(self, tail, head):
-        return len(self._out_dict[tail][head]) > 0
+        return len(self._out_dict[tail].get(head, ())) > 0
 
     def edges_out(self, vertex):
         """Get the list of edges directed away from a vertex.
@@ -206,8 +206,9 @@ class FSA:
         edge between `tail` and `head`.
 
         """
-        if len(self._out_dict[tail][head]) == 1:
-            return self._out_dict[tail][head][0]
+        labels = self._out_dict[tail].get(head, ())
+        if len(labels) == 1:
+            return labels[0]
         else:
             raise ValueError("ambiguous edge specification: there is not exactly"
                             f" one edge between {tail} and {head}" )
@@ -217,7 +218,7 @@ class FSA:
         and `head`.
 
         """
-        return list(self._out_dict[tail][head])
+        return list(self._out_dict[tail].get(head, ()))
 
     def add_vertices(self, vertices):
         """Add vertices to the FSA.
